@@ -66,6 +66,9 @@ pub use crate::internal::{Entries, Entry, Stream, Version};
 #[macro_use]
 mod internal;
 
+#[cfg(cfb_verif)]
+pub mod verif;
+
 //===========================================================================//
 
 /// Opens an existing compound file at the given path in read-only mode.
